@@ -1722,4 +1722,22 @@ theorem quote_roundtrip_main (l : Lang) (s q : Bytes) (hv : validLang l = true)
               List.append_nil]
 
 
+/-! ## `LangVariant.in` for non-zero bit sets -/
+
+/-- For a non-zero bit set, `l.in(LangPOSIX)` / `l.in(LangMirBSDKorn)` is plain equality. -/
+theorem langIn_eq_of_ne_zero (l m : Nat) (hm : m = 2 ∨ m = 4) (h : l ≠ 0) :
+    langIn l m = (l == m) := by
+  unfold langIn
+  by_cases hle : l ≤ m
+  · rcases hm with hm | hm <;> subst hm
+    · have : l = 1 ∨ l = 2 := by omega
+      rcases this with rfl | rfl <;> decide
+    · have : l = 1 ∨ l = 2 ∨ l = 3 ∨ l = 4 := by omega
+      rcases this with rfl | rfl | rfl | rfl <;> decide
+  · have h1 : l &&& m ≤ m := Nat.and_le_right
+    have h2 : (l &&& m) ≠ l := by omega
+    have h3 : l ≠ m := by omega
+    rw [beq_eq_false_iff_ne.mpr h2, beq_eq_false_iff_ne.mpr h3]
+
+
 end ShVerif.C13
